@@ -139,7 +139,13 @@ func (e naiveEngine) oneStepEvalClause(clause ast.Clause) []ast.Atom {
 
 	var facts []ast.Atom
 	for _, sol := range solutions {
-		facts = append(facts, clause.Head.ApplySubst(sol).(ast.Atom))
+		// Function applications in the head are evaluated, as the semi-naive
+		// engine does. Errors are treated like a failed premise.
+		head, err := functional.EvalAtom(clause.Head, sol)
+		if err != nil {
+			continue
+		}
+		facts = append(facts, head)
 	}
 	return facts
 }
@@ -177,24 +183,25 @@ func (e naiveEngine) oneStepEvalPremise(premise ast.Term, subst unionfind.UnionF
 			return nil
 		})
 	case ast.NegAtom:
-		a, err := functional.EvalAtom(p.Atom, subst)
+		// A negated atom holds if no stored fact unifies with it.
+		nsubsts, err := premiseNegAtom(p.Atom, e.store, subst)
 		if err != nil {
 			return nil
 		}
-		e.store.GetFacts(a, func(fact ast.Atom) error {
-			if _, err := unionfind.UnifyTermsExtend(p.Atom.Args, fact.Args, subst); err != nil {
-				solutions = append(solutions, subst)
-			}
-			return nil
-		})
+		return nsubsts
 	case ast.Eq:
-		if newsubst, err := unionfind.UnifyTermsExtend([]ast.BaseTerm{p.Left}, []ast.BaseTerm{p.Right}, subst); err == nil {
-			solutions = append(solutions, newsubst)
+		// Both sides are evaluated first, they may contain function applications.
+		nsubsts, err := premiseEq(p.Left, p.Right, subst)
+		if err != nil {
+			return nil
 		}
+		return nsubsts
 	case ast.Ineq:
-		if _, err := unionfind.UnifyTermsExtend([]ast.BaseTerm{p.Left}, []ast.BaseTerm{p.Right}, subst); err != nil {
-			solutions = append(solutions, subst)
+		nsubsts, err := premiseIneq(p.Left, p.Right, subst)
+		if err != nil {
+			return nil
 		}
+		return nsubsts
 	}
 	return solutions
 }
